@@ -70,7 +70,9 @@ def cases(tier, seed):
                    'spec': ['params', 'ops', 'params_no_bias', 'ops_no_bias'][i % 4],
                    'mode': ['soft', 'hard', 'gumbel'][(i // 4) % 3], 'seed': seed * 37 + i,
                    # the metric is one entry of a dictionary specification, queried after another
-                   'dictspec': (i // 12) % 2 == 1})
+                   'dictspec': (i // 12) % 2 == 1,
+                   # the fixed layers outside the choice blocks are charged, too
+                   'full_cost': (i // 5) % 3 == 1})
     for i in range(24 if tier == 'quick' else 300):
         cs.append({'kind': 'odimo', 'prog_seed': seed * 1000003 + 93000 + i, 'seed': seed * 41 + i})
     # the repository's own tests under the in-situ "every model cost is finite and non-negative" contract
@@ -421,7 +423,7 @@ def run_sn(case, ctx):
     else:
         spec = getattr(pc, case['spec'])
     try:
-        model, sn = snlib.convert_sn(desc, case['seed'], cost=spec)
+        model, sn = snlib.convert_sn(desc, case['seed'], cost=spec, full_cost=bool(case.get('full_cost')))
     except Exception as e:
         ctx.skip(type(e).__name__ + ': ' + str(e)[:80])
         return
@@ -433,6 +435,7 @@ def run_sn(case, ctx):
             c.alpha.data.copy_(alphas[n])
     x = snlib.sn_input(desc, case['seed'], 2)
     detail = {'spec': case['spec'], 'mode': case['mode'], 'dict': dict_mode,
+              'full_cost': bool(case.get('full_cost')),
               'blocks': [[b['kind'] for b in st['branches']] for st in snlib.sn_blocks(desc)]}
 
     def cost_of():
@@ -444,6 +447,19 @@ def run_sn(case, ctx):
         torch.manual_seed(case['seed'])      # same Gumbel noise for base and perturbed evaluation
         sn(x)
         return cost_of()
+    # "can be evaluated": every metric of the specification, in the form it was given
+    try:
+        torch.manual_seed(case['seed'])
+        sn(x)
+        if dict_mode:
+            for nm in names:
+                sn.get_cost(nm)
+        else:
+            sn.cost
+    except Exception as e:
+        ctx.violation('cost-crash', dict(detail, sig='sn:evaluate:' + type(e).__name__,
+                                         exc=repr(e)[:300]))
+        return
     if dict_mode:
         # another metric of the dictionary is evaluated first
         torch.manual_seed(case['seed'])
@@ -452,7 +468,8 @@ def run_sn(case, ctx):
         # the value of a metric is a function of the architectural parameters alone: the same
         # network with the same coefficients and that metric as its only specification agrees
         try:
-            _, twin = snlib.convert_sn(desc, case['seed'], cost=getattr(pc, case['spec']))
+            _, twin = snlib.convert_sn(desc, case['seed'], cost=getattr(pc, case['spec']),
+                                       full_cost=bool(case.get('full_cost')))
             twin.train()
             for n, c in snlib.combiners(twin):
                 with torch.no_grad():
